@@ -5,6 +5,11 @@
 //! `.vcmode`, its first line is the mode and the following lines are the
 //! mode's parameters (used when argv and the environment are under test).
 //! Otherwise argv[1] is the mode and argv[2..] the parameters.
+//!
+//! `#![no_main]`: Rust's runtime start-up would set SIGPIPE to "ignore" before
+//! `main`; the helper must observe (and act under) exactly the signal state it
+//! was exec'ed with.
+#![no_main]
 use std::ffi::CString;
 use std::io::{Read, Write};
 use std::os::unix::ffi::OsStringExt;
@@ -395,7 +400,13 @@ fn mode_sigreport(p: &[String]) -> ! {
     }
 }
 
-fn main() {
+#[no_mangle]
+pub extern "C" fn main(_argc: libc::c_int, _argv: *const *const libc::c_char) -> libc::c_int {
+    real_main();
+    0
+}
+
+fn real_main() {
     unsafe { libc::alarm(600) };
     let argv: Vec<Vec<u8>> = std::env::args_os().map(|a| a.into_vec()).collect();
     // sidecar mode file next to the executable?
